@@ -24,3 +24,4 @@ import Ymq.Props.C13Log
 #print axioms Ymq.C13.accumulator_no_overflow_partial
 #print axioms Ymq.C13.smooths_threshold_spec
 #print axioms Ymq.C13.smooth_candidate_reported
+#print axioms Ymq.C13.table_bucket_exact
